@@ -62,6 +62,9 @@ fn dispatch(op: I, args: &[I]) -> Vec<I> {
 fn main() {
     std::panic::set_hook(Box::new(|info| {
         let msg = info.to_string();
+        if std::env::var_os("A1H_SHOW_PANIC").is_some() {
+            eprintln!("{}", msg);
+        }
         LAST_PANIC.with(|p| *p.borrow_mut() = msg);
     }));
     let stdin = std::io::stdin();
